@@ -38,7 +38,7 @@ Lemma replace_all_fuel_S f a b c s :
   else c :: replace_all_fuel f a b s.
 Proof. reflexivity. Qed.
 
-(** [s.replace(a, b)] when [s] starts with [a] and has no other occurrence *)
+(** [s.replace(a, b)] when [s] starts with [a] and has no other occurrence (old shape) *)
 Lemma replace_all_prefix_once a b r :
   a <> [] -> contains a r = false -> replace_all a b (a ++ r) = b ++ r.
 Proof.
@@ -75,6 +75,14 @@ Qed.
 
 Lemma find_nat_prefix p s : prefixb p s = true -> find_nat p s = Some O.
 Proof. intros H. destruct s; cbn [find_nat]; rewrite H; reflexivity. Qed.
+
+(** [s.replace(a, b, 1)] when [s] starts with [a]: whatever follows (repaired shape) *)
+Lemma replace_pfx_prefix a b r : replace_pfx a b (a ++ r) = b ++ r.
+Proof.
+  unfold replace_pfx. change ttl_replace_once with true. cbv iota. unfold replace_first.
+  rewrite (find_nat_prefix a (a ++ r) (prefixb_app a r)). cbn [firstn app Nat.add].
+  rewrite skipn_app, skipn_all, Nat.sub_diag. reflexivity.
+Qed.
 
 Lemma find_nat_some_app a x y : exists k, find_nat a (x ++ a ++ y) = Some k.
 Proof.
@@ -128,7 +136,7 @@ Qed.
 (** [unprefixize_uri_mandatory] finds the declared namespace *)
 Lemma unprefixize_dget (d : list (str * str)) p l ns :
   Forall colon_free (dkeys d) -> colon_free p -> dget d p = Some ns ->
-  unprefixize (p ++ Str ":" ++ l) d = Ok (s_lt ++ replace_all (p ++ Str ":") ns (p ++ Str ":" ++ l) ++ s_gt).
+  unprefixize (p ++ Str ":" ++ l) d = Ok (s_lt ++ replace_pfx (p ++ Str ":") ns (p ++ Str ":" ++ l) ++ s_gt).
 Proof.
   intros Hk Hp. induction d as [|(q, w) d IH]; cbn [dget unprefixize]; [discriminate|].
   inversion Hk; subst. change ttl_prefix_sep with (Str ":").
@@ -206,67 +214,106 @@ Proof.
   rewrite len_cons. pose proof (len_nonneg s). rewrite Z.min_l by lia. reflexivity.
 Qed.
 
+(** the scheme test of the repaired reader against the spec's [has_scheme] *)
+Lemma scheme_alpha_eq c : scheme_alpha c = is_alpha c.
+Proof. reflexivity. Qed.
+
+Lemma scheme_char_of c : is_alpha c || is_dig c || in_str c "+-." = true -> scheme_char c = true.
+Proof. destruct c as [[|] [|] [|] [|] [|] [|] [|] [|]]; vm_compute; intros; first [reflexivity | discriminate]. Qed.
+
+Lemma colon_code c : Nat.eqb (nat_of_ascii c) 58 = Ascii.eqb (chr ":") c.
+Proof. destruct c as [[|] [|] [|] [|] [|] [|] [|] [|]]; reflexivity. Qed.
+
+Lemma scheme_rest_found : forall s n X,
+  find_nat [chr ":"] s = Some n ->
+  forallb (fun c => is_alpha c || is_dig c || in_str c "+-.") (firstn n s) = true ->
+  scheme_rest (s ++ X) = true.
+Proof.
+  induction s as [|c s IH]; intros n X Hf Hall; [discriminate Hf|].
+  rewrite find_nat_single_cons in Hf. cbn [app scheme_rest]. rewrite colon_code. unfold chr_eqb in Hf.
+  destruct (Ascii.eqb (chr ":") c); [reflexivity|].
+  destruct (find_nat [chr ":"] s) as [k|] eqn:Ek; [|discriminate Hf]. cbn [option_map] in Hf. inversion Hf; subst n.
+  cbn [firstn forallb] in Hall. apply andb_true_iff in Hall. destruct Hall as (Hc & Hall).
+  rewrite (scheme_char_of c Hc). apply (IH k X eq_refl Hall).
+Qed.
+
+Lemma has_scheme_model i X : has_scheme i = true -> starts_with_scheme (i ++ X) = true.
+Proof.
+  unfold has_scheme. change (Str ":") with [chr ":"].
+  destruct (find_nat [chr ":"] i) as [[|n]|] eqn:Ef; try discriminate. intros H.
+  apply andb_true_iff in H. destruct H as (Hfirst & Hall).
+  destruct i as [|c t]; [discriminate Ef|]. cbn [first_ok] in Hfirst.
+  cbn [app starts_with_scheme]. rewrite scheme_alpha_eq, Hfirst. cbn [andb].
+  rewrite find_nat_single_cons in Ef. destruct (chr_eqb (chr ":") c); [discriminate Ef|].
+  destruct (find_nat [chr ":"] t) as [k|] eqn:Ek; [|discriminate Ef]. cbn [option_map] in Ef. inversion Ef; subst k.
+  cbn [firstn forallb] in Hall. apply andb_true_iff in Hall. apply (scheme_rest_found t n X Ek (proj2 Hall)).
+Qed.
+
+Lemma scheme_rest_no_colon s : Forall (fun c => Ascii.eqb (chr ":") c = false) s -> scheme_rest s = false.
+Proof.
+  induction 1 as [|c s Hc Hs IH]; [reflexivity|]. cbn [scheme_rest]. rewrite colon_code, Hc, IH.
+  destruct (scheme_char c); reflexivity.
+Qed.
+
+Lemma no_scheme_no_colon s : Forall (fun c => Ascii.eqb (chr ":") c = false) s -> starts_with_scheme s = false.
+Proof.
+  intros H. destruct s as [|c t]; [reflexivity|]. inversion H; subst. cbn [starts_with_scheme].
+  rewrite scheme_rest_no_colon by assumption. apply andb_false_r.
+Qed.
+
 Lemma parse_cornered_abs b i :
-  (b = None \/ prefixb http i = true) -> i <> [] ->
+  (b = None \/ starts_with_scheme (i ++ s_gt) = true) -> i <> [] ->
   parse_cornered b (s_lt ++ i ++ s_gt) = Ok (s_lt ++ i ++ s_gt).
 Proof.
   intros Hb Hne. unfold parse_cornered. destruct b as [bs|]; [|reflexivity].
   destruct Hb as [Hb|Hb]; [discriminate|].
   destruct i as [|c t]; [contradiction|].
-  assert (Hc : c = chr "h").
-  { unfold http in Hb. change (Str "http") with [chr "h"; chr "t"; chr "t"; chr "p"] in Hb. cbn [prefixb] in Hb.
-    apply andb_true_iff in Hb. destruct Hb as (Hb & _). apply Ascii.eqb_eq in Hb. auto. }
-  subst c.
-  change (at_idx (s_lt ++ (chr "h" :: t) ++ s_gt) 1) with (at_idx (ttl_iri_open :: chr "h" :: t ++ s_gt) 1).
-  rewrite (at_idx_at_pos _ 1 (chr "h") (t ++ s_gt)) by (exists s_lt; split; reflexivity).
-  change (mem_str [chr "h"] ttl_INI_BASE_URIS) with false. cbv iota.
-  change (s_lt ++ (chr "h" :: t) ++ s_gt) with (ttl_iri_open :: (chr "h" :: t) ++ s_gt). rewrite slice_from_1.
-  assert (E : prefixb ttl_abs_iri_start ((chr "h" :: t) ++ s_gt) = true).
-  { apply prefixb_spec in Hb. destruct Hb as (r & Hr). rewrite Hr. change ttl_abs_iri_start with http.
-    rewrite <- app_assoc. apply prefixb_app. }
-  rewrite E. reflexivity.
+  change (at_idx (s_lt ++ (c :: t) ++ s_gt) 1) with (at_idx (ttl_iri_open :: c :: t ++ s_gt) 1).
+  rewrite (at_idx_at_pos _ 1 c (t ++ s_gt)) by (exists s_lt; split; reflexivity).
+  assert (Hc : mem_str [c] ttl_INI_BASE_URIS = false).
+  { cbn [app starts_with_scheme] in Hb. apply andb_true_iff in Hb. destruct Hb as (Ha & _). revert Ha. clear.
+    destruct c as [[|] [|] [|] [|] [|] [|] [|] [|]]; vm_compute; intros; first [reflexivity | discriminate]. }
+  rewrite Hc.
+  change (s_lt ++ (c :: t) ++ s_gt) with (ttl_iri_open :: (c :: t) ++ s_gt). rewrite slice_from_1.
+  unfold is_absolute. change ttl_scheme_test_nodes with true. cbv iota. rewrite Hb. reflexivity.
 Qed.
 
-Lemma parse_elem_cornered s tok :
-  parse_cornered (base s) (s_lt ++ tok) = Ok (s_lt ++ tok) ->
-  parse_elem s (s_lt ++ tok) = Ok (Some (s_lt ++ tok)).
+Lemma parse_elem_cornered s tok r :
+  parse_cornered (base s) (s_lt ++ tok) = Ok r ->
+  parse_elem s (s_lt ++ tok) = Ok (Some r).
 Proof.
   intros H. unfold parse_elem.
   rewrite (at_idx_at_pos (s_lt ++ tok) 0 ttl_iri_open tok) by (exists []; split; reflexivity).
   rewrite chr_eqb_refl, H. reflexivity.
 Qed.
 
-Lemma vtok_cornered b tok r : parse_cornered b (s_lt ++ tok) = Ok r -> vtok b (s_lt ++ tok) = r.
-Proof. intros H. unfold vtok. change (prefixb s_lt (s_lt ++ tok)) with true. rewrite H. reflexivity. Qed.
-
 Lemma ref_abs e s i u :
   env_match e s -> okR e (IAbs i) = true -> resolve_ref e (IAbs i) = Some u ->
   closure_state (vtok (base s) (render_ref (IAbs i))) = None /\
   parse_elem s (vtok (base s) (render_ref (IAbs i))) = Ok (Some (s_lt ++ u ++ s_gt)).
 Proof.
-  intros (Hb & _ & _) Hok Hu. cbn in Hu. inversion Hu; subst u.
-  unfold okR in Hok. apply andb_true_iff in Hok. destruct Hok as (Hwf & Hrc).
+  intros _ Hok Hu. cbn in Hu. inversion Hu; subst u.
+  unfold okR in Hok. apply andb_true_iff in Hok. destruct Hok as (Hwf & _).
   cbn [ref_wf] in Hwf. apply andb_true_iff in Hwf. destruct Hwf as (_ & Hsch).
   destruct (has_scheme_nonempty i Hsch) as (c & t & Hi).
-  assert (Hcase : base s = None \/ prefixb http i = true).
-  { cbn [rc_ref] in Hrc. rewrite <- Hb in Hrc. destruct (base s); [|auto]. right.
-    cbn [is_some andb] in Hrc. destruct (prefixb http i); [reflexivity | discriminate]. }
   assert (Hpc : parse_cornered (base s) (s_lt ++ i ++ s_gt) = Ok (s_lt ++ i ++ s_gt)).
-  { apply parse_cornered_abs; [exact Hcase | subst i; discriminate]. }
-  change (render_ref (IAbs i)) with (s_lt ++ i ++ s_gt).
-  rewrite (vtok_cornered _ _ _ Hpc). split; [apply closure_state_lt | apply parse_elem_cornered; exact Hpc].
+  { apply parse_cornered_abs; [right; apply has_scheme_model; exact Hsch | subst i; discriminate]. }
+  change (render_ref (IAbs i)) with (s_lt ++ i ++ s_gt). rewrite vtok_id.
+  split; [apply closure_state_lt | apply parse_elem_cornered; exact Hpc].
 Qed.
 
-Lemma ini_base_char c : in_str c "#/" = false -> mem_str [c] ttl_INI_BASE_URIS = false.
+Lemma ini_base_char c : in_str c "/" = false -> mem_str [c] ttl_INI_BASE_URIS = false.
 Proof.
-  unfold in_str. change (Str "#/") with [chr "#"; chr "/"]. cbn [existsb].
-  change ttl_INI_BASE_URIS with [[chr "/"]; [chr "#"]]. cbn [mem_str str_eqb].
-  destruct (Ascii.eqb c (chr "#")), (Ascii.eqb c (chr "/")); cbn; intros H; try discriminate; reflexivity.
+  unfold in_str. change (Str "/") with [chr "/"]. cbn [existsb].
+  change ttl_INI_BASE_URIS with [[chr "/"]]. cbn [mem_str str_eqb].
+  destruct (Ascii.eqb c (chr "/")); cbn; intros H; try discriminate; reflexivity.
 Qed.
 
-Lemma prefixb_http_app b x : prefixb http b = true -> prefixb http (b ++ x) = true.
+Lemma contains_colon_false x : contains (Str ":") x = false -> Forall (fun c => Ascii.eqb (chr ":") c = false) x.
 Proof.
-  intros H. apply prefixb_spec in H. destruct H as (r & ->). rewrite <- app_assoc. apply prefixb_app.
+  unfold contains. change (Str ":") with [chr ":"]. induction x as [|c x IH]; intros H; [constructor|].
+  rewrite find_nat_single_cons in H. unfold chr_eqb in H. destruct (Ascii.eqb (chr ":") c) eqn:E; [discriminate|].
+  constructor; [exact E|]. apply IH. destruct (find_nat [chr ":"] x); [discriminate | reflexivity].
 Qed.
 
 Lemma ref_rel e s x u :
@@ -275,43 +322,34 @@ Lemma ref_rel e s x u :
   parse_elem s (vtok (base s) (render_ref (IRel x))) = Ok (Some (s_lt ++ u ++ s_gt)).
 Proof.
   intros (Hb & _ & _) Hok Hu. cbn [resolve_ref] in Hu.
-  unfold okR in Hok. apply andb_true_iff in Hok. destruct Hok as (_ & Hrc). cbn [rc_ref] in Hrc.
+  unfold okR in Hok. apply andb_true_iff in Hok. destruct Hok as (Hwf & Hrc). cbn [rc_ref] in Hrc.
+  cbn [ref_wf] in Hwf. apply andb_true_iff in Hwf. destruct Hwf as (_ & Hnc). apply negb_true_iff in Hnc.
   destruct (e_base e) as [bs|] eqn:Eb; [|discriminate].
   rewrite Hu in Hrc.
-  destruct (when (first_ok (fun c => in_str c "#/") x && negb (Nat.eqb (List.length x) 0)) RC_ini_base ++
-            when (prefixb http x) RC_abs_test ++ when (negb (prefixb http bs)) RC_double_base ++
+  destruct (when (first_ok (fun c => in_str c "/") x && negb (Nat.eqb (List.length x) 0)) RC_ini_base ++
             when (negb (str_eqb u (bs ++ x))) RC_concat) eqn:E; [|discriminate].
-  apply app_nil_inv in E. destruct E as (C1 & E). apply app_nil_inv in E. destruct E as (C2 & E).
-  apply app_nil_inv in E. destruct E as (C3 & C4).
-  apply when_nil in C1. apply when_nil in C2. apply when_nil in C3. apply when_nil in C4.
-  apply negb_false_iff in C3. apply negb_false_iff in C4. apply str_eqb_eq in C4. subst u.
+  apply app_nil_inv in E. destruct E as (C1 & C4).
+  apply when_nil in C1. apply when_nil in C4.
+  apply negb_false_iff in C4. apply str_eqb_eq in C4. subst u.
+  assert (Hns : starts_with_scheme (x ++ s_gt) = false).
+  { apply no_scheme_no_colon. apply Forall_app. split; [apply contains_colon_false; exact Hnc | repeat constructor]. }
   assert (Hpc1 : parse_cornered (base s) (s_lt ++ x ++ s_gt) = Ok (s_lt ++ (bs ++ x) ++ s_gt)).
-  { rewrite Hb. unfold parse_cornered.
-    assert (Hnh : prefixb ttl_abs_iri_start (x ++ s_gt) = false).
-    { destruct (prefixb ttl_abs_iri_start (x ++ s_gt)) eqn:Ep; [|reflexivity].
-      change s_gt with [chr ">"] in Ep. apply prefixb_snoc_excl in Ep.
-      - change ttl_abs_iri_start with http in Ep. congruence.
-      - repeat constructor.
-      - discriminate. }
+  { rewrite Hb. unfold parse_cornered, is_absolute. change ttl_scheme_test_nodes with true. cbv iota.
     destruct x as [|c t].
     - cbn [app]. change (at_idx (s_lt ++ s_gt) 1) with (Some (chr ">")).
       change (mem_str [chr ">"] ttl_INI_BASE_URIS) with false. cbv iota.
       change (s_lt ++ s_gt) with (ttl_iri_open :: s_gt). rewrite slice_from_1.
-      change (prefixb ttl_abs_iri_start s_gt) with false. cbv iota. cbn [negb].
+      change (starts_with_scheme s_gt) with false. cbv iota. cbn [negb].
       change (ttl_iri_open :: s_gt) with (s_lt ++ [] ++ s_gt). rewrite slice_corners. rewrite app_nil_r. reflexivity.
     - change (s_lt ++ (c :: t) ++ s_gt) with (ttl_iri_open :: c :: t ++ s_gt).
       rewrite (at_idx_at_pos _ 1 c (t ++ s_gt)) by (exists s_lt; split; reflexivity).
       cbn [first_ok List.length Nat.eqb negb] in C1. rewrite andb_true_r in C1.
       rewrite (ini_base_char c C1). rewrite slice_from_1.
-      change (c :: t ++ s_gt) with ((c :: t) ++ s_gt). rewrite Hnh. cbn [negb].
+      change (c :: t ++ s_gt) with ((c :: t) ++ s_gt). rewrite Hns. cbn [negb].
       change (ttl_iri_open :: (c :: t) ++ s_gt) with (s_lt ++ (c :: t) ++ s_gt). rewrite slice_corners.
       rewrite <- app_assoc. reflexivity. }
-  assert (Hpc2 : parse_cornered (base s) (s_lt ++ (bs ++ x) ++ s_gt) = Ok (s_lt ++ (bs ++ x) ++ s_gt)).
-  { apply parse_cornered_abs.
-    - right. apply prefixb_http_app. exact C3.
-    - destruct bs; [discriminate C3 | discriminate]. }
-  change (render_ref (IRel x)) with (s_lt ++ x ++ s_gt).
-  rewrite (vtok_cornered _ _ _ Hpc1). split; [apply closure_state_lt | apply parse_elem_cornered; exact Hpc2].
+  change (render_ref (IRel x)) with (s_lt ++ x ++ s_gt). rewrite vtok_id.
+  split; [apply closure_state_lt | apply parse_elem_cornered; exact Hpc1].
 Qed.
 
 Lemma str_eqb_single_false (t : str) c : (2 <= List.length t)%nat -> str_eqb t [c] = false.
@@ -328,10 +366,9 @@ Proof.
   cbn [ref_wf] in Hwf. rewrite !andb_true_iff in Hwf. destruct Hwf as ((((W1 & W2) & _) & _) & _).
   assert (Hcf : colon_free p) by (apply (forallb_colon_free _ _ W1); reflexivity).
   cbn [rc_ref] in Hrc. rewrite El in Hrc.
-  destruct (when (contains (p ++ Str ":") l) RC_replace_all ++
-            when (str_eqb (render_ref (IPre p l)) (Str "rdf:type") && negb (str_eqb ns rdf_ns)) RC_dt_hardwired) eqn:E;
+  destruct (when (str_eqb (render_ref (IPre p l)) (Str "rdf:type") && negb (str_eqb ns rdf_ns)) RC_dt_hardwired) eqn:C2;
     [|discriminate].
-  apply app_nil_inv in E. destruct E as (C1 & C2). apply when_nil in C1. apply when_nil in C2.
+  apply when_nil in C2.
   change (render_ref (IPre p l)) with (p ++ Str ":" ++ l) in *.
   set (tok := p ++ Str ":" ++ l) in *.
   (* the first character of the token *)
@@ -373,7 +410,7 @@ Proof.
     rewrite Eb. unfold tok.
     rewrite (unprefixize_dget (prefixes s) p l ns Hk Hcf) by (rewrite Hd; exact El). cbn [bind].
     replace (p ++ Str ":" ++ l) with ((p ++ Str ":") ++ l) by (rewrite <- app_assoc; reflexivity).
-    rewrite replace_all_prefix_once; [reflexivity | destruct p; discriminate | exact C1].
+    rewrite replace_pfx_prefix. reflexivity.
 Qed.
 
 (** T4: a well-formed IRI reference free of root causes is expanded to the
